@@ -847,7 +847,7 @@ Proof. eexists. split; reflexivity. Qed.
 Lemma kernel_example : exists s,
   krun (kinit [2; 1]) [LAdd; LGo; LSend 0; LAdd; LGo; LLoopEnd; LSend 1; LDone 1; LSend 0; LDone 0; LWait; LClose] = Some s /\
   closed s = true /\ delivered s = 3 /\ bad s = false /\ wg s = 0%Z.
-Proof. eexists. repeat split; reflexivity. Qed.
+Proof. eexists. split; [vm_compute; reflexivity|]. vm_compute. auto. Qed.
 
 Print Assumptions kernel_safe.
 Print Assumptions kernel_progress.
